@@ -181,8 +181,10 @@ class LocationAction(object):
         # Have we fired too quickly?
         last_fire = self.__stats.last_fire
         if last_fire != 0:
-            # hits of other threads can be recorded out of timestamp order, so look at the distance
-            time_since_last = abs(ts - last_fire)
+            # hits of other threads can be recorded out of timestamp order: a hit that has been overtaken by a later
+            # fire is taken to happen with that fire (it passes a period of 0 only). Looking at the distance to the
+            # newest fire would let it through next to the older fires, which we do not remember.
+            time_since_last = max(0, ts - last_fire)
             if time_since_last < self.__fire_period_ns():
                 return False
 
